@@ -193,6 +193,15 @@ func buildNode(mn *mnode, r *rec, literal, useNew bool, src srcFns) *liveNode {
 		return mkS(S3{A: src.s(nm(0)), B: src.s(nm(1)), C: src.s(nm(2)), R: r}, useNew, r)
 	case kSArr:
 		return mkS(SArr{Values: arrS(), R: r}, useNew, r)
+	case kSArr2:
+		var more []nodes.NodeOutput[string]
+		if literal && len(mn.arr2) > 0 {
+			more = make([]nodes.NodeOutput[string], len(mn.arr2))
+			for j := range mn.arr2 {
+				more[j] = src.s(&mn.arr2[j])
+			}
+		}
+		return mkS(SArr2{Values: arrS(), More: more, R: r}, useNew, r)
 	case kSMix:
 		return mkS(SMix{Values: arrS(), A: src.s(nm(0)), B: src.s(nm(1)), R: r}, useNew, r)
 	case kI2:
